@@ -8,7 +8,7 @@ TRUSTED_BASE = ["Lean 4.33 kernel", "axioms: propext, Classical.choice, Quot.sou
 ASSUMPTIONS = ["calls already made are observed in program order per process (single-threaded rocfl)",
                "the staging phases are judged by the monitor on observed traces, their call order is not modelled (hash-order dependent)"]
 CORRESPONDENCE = "installNewVersion/installNewObject + avoids (lean/RocflModel/Script.lean) vs the strace of `rocfl commit|upgrade` (fs.rs write_new_version / write_new_object)"
-BUDGET = {"quick": dict(histories=12, ops=10, seconds=150), "thorough": dict(histories=400, ops=22, seconds=1500)}
+BUDGET = {"quick": dict(histories=40, ops=12, seconds=150), "thorough": dict(histories=400, ops=22, seconds=1500)}
 RULE = ("histories of real CLI invocations (init/new/cp/mv/rm/reset/commit/upgrade/purge, 1-3 objects, 4 layouts + none, both staging placements), "
         "every invocation under strace; each mutating system call is judged individually against the set of version directories committed before the "
         "operation; distinct non-trivial = distinct (operation, exit status)")
